@@ -10,6 +10,9 @@ open Util
    B lines: user code blocked / re-entering on a pipeline goroutine while Stop or an expansion arrives; judged by chk_C18,
             where leaving through the grace period is the EXPECTED verdict of mode h (the harness keeps the sink blocked
             beyond the grace period) and no other mode; so:<j> (Stop still running after grace + margin) = stop_over_grace;
+   K lines: producers parked inside Emit on a full data channel while Stop runs; judged by chk_C18 (eo:<j> = an Emit in
+            progress when Stop was called did not return = emit_blocked_after_stop); the scenario is replayed on the model,
+            which must release every producer through its done branch;
    I lines: Execute immediately followed by Stop; judged by chk_C18 (a Stop that leaves through its grace although nothing is
             in flight = stop_grace_expired, goroutine_leak, the barrier clauses); the same script is replayed on the model
             with the Stop caller scheduled BEFORE the pipeline goroutines, which must show a join and no goroutine left;
@@ -17,7 +20,7 @@ open Util
 
 let string_of_lclause = function
   | ClSinkAfterStop -> "sink_after_stop" | ClSinkRunning -> "sink_running_after_stop" | ClSyncAfterStop -> "emitsync_after_stop" | ClStopGrace -> "stop_grace_expired"
-  | ClStopOverGrace -> "stop_over_grace"
+  | ClStopOverGrace -> "stop_over_grace" | ClEmitStuck -> "emit_blocked_after_stop"
   | ClStuck -> "stuck" | ClLeak -> "goroutine_leak" | ClLoserEarly -> "loser_stop_returns_early"
 
 let split_hash (toks : string list) : string list list =
@@ -177,8 +180,43 @@ let parse_event (tok : string) : levent option =
   | ["ye"; j; r] -> Some (ESyncEnd (nat_of_int (int_of_string j), r <> "0"))
   | ["to"] -> Some ETimeout
   | ["so"; j] -> Some (EStopOver (nat_of_int (int_of_string j)))
+  | ["eo"; j] -> Some (EEmitOver (nat_of_int (int_of_string j)))
   | ["gr"; b; f] -> Some (EGoroutines (nat_of_int (int_of_string b), nat_of_int (int_of_string f)))
   | _ -> None
+
+(* ---- family K: producers parked inside Emit on a full data channel while Stop runs.
+   The scenario on the extracted model: the processor takes the first row and is then held inside a synchronous sink (it
+   is not scheduled again), cap rows fill the channel, nprod producers move until none can (choice 0 = the send, choice 1
+   = a timer: the 100 us retries of drop / expand always fire, the block timer only when it is short), the Stop caller
+   runs up to its join, then every producer still inside Emit is run alone with choice 2 (the done branch) for 6 steps.
+   Returns (producers parked when Stop was called, every one of them returned). *)
+let run_parked strat bt cap nprod : int * bool =
+  let timer_fires = bt > 0 && bt < 1000 in
+  let c = { c_fixed_lock = true; c_track_sync = true; c_batch_recover = true; c_window = false; c_cep = false;
+            c_strategy = (match strat with "drop" -> SDrop | "block" -> SBlock | _ -> SExpand);
+            c_block_timeout = bt > 0; c_pool_cap = nat_of_int 4; c_max_cap = nat_of_int (cap * 4) } in
+  let roles = [RProcessor] @ List.init (1 + cap + nprod) (fun i -> RProducer (nat_of_int i)) @ [RStopper] in
+  let st = ref (linit (nat_of_int cap) [] [[]] roles) in
+  let try_step tid ch = match lstep c (nat_of_int tid) (nat_of_int ch) !st with Some s -> st := s; true | None -> false in
+  let finished tid = let th = List.nth !st.ths tid in th.t_pc = LDone && th.t_code = [] in
+  let rec produce fuel tid =
+    if fuel = 0 || finished tid then () else
+    if try_step tid 0 then produce (fuel - 1) tid else
+    let th = List.nth !st.ths tid in
+    if (th.t_pc <> PdBlkSend || timer_fires) && try_step tid 1 then produce (fuel - 1) tid in
+  ignore (try_step 0 0); ignore (try_step 0 0);          (* Start's critical section, loop head *)
+  produce 20 1;                                            (* the row that holds the processor *)
+  for _ = 1 to 4 do ignore (try_step 0 0) done;          (* takes it, snapshot of the sinks, the sink begins *)
+  for tid = 2 to 1 + cap do produce 20 tid done;           (* the fill rows *)
+  let fill_ok = List.for_all finished (List.init cap (fun i -> 2 + i)) in
+  let prods = List.init nprod (fun i -> 2 + cap + i) in
+  List.iter (produce 20) prods;
+  let parked = List.filter (fun tid -> not (finished tid)) prods in
+  let stopper = 2 + cap + nprod in
+  let rec stop fuel = if fuel > 0 && try_step stopper 0 then stop (fuel - 1) in
+  stop 20;
+  List.iter (fun tid -> for _ = 1 to 6 do ignore (try_step tid 2) done) parked;
+  (List.length parked, fill_ok && !st.sh.closed && List.for_all finished prods)
 
 (* sp:<j> = a panic escaped Stop call j into its caller (recorded by the harness just before sr:<j>) *)
 let stop_panicked tok = String.length tok > 3 && String.sub tok 0 3 = "sp:"
@@ -258,6 +296,24 @@ let handle (toks : string list) : string =
            (* mode h: the sink was still blocked when Stop returned, so a return through the join is impossible: the
               monitor has then seen the sink end after the barrier (sink_running_after_stop) -- unless no sink began *)
            if has_begin && has_ret then "ok nt" else "ok")
+  | "K" :: _ :: strat :: bt :: cap :: _ :: nprod :: mode :: parked :: "#" :: evs ->
+      if List.exists stop_panicked evs then "chk panic_escaped Stop" else
+      let tr = List.filter_map parse_event evs in
+      if List.length tr <> List.length evs then "bad event token" else
+      let bt = int_of_string bt and parked = int_of_string parked in
+      let (mparked, released) = run_parked strat bt (int_of_string cap) (int_of_string nprod) in
+      if not released then "diff parked: in the model a producer inside Emit is not released by Stop" else
+      (match chk_C18 tr with
+       | Some ClEmitStuck ->
+           let over = List.filter (fun t -> String.length t > 3 && String.sub t 0 3 = "eo:") evs in
+           Printf.sprintf "chk emit_blocked_after_stop %d Emit call(s) in progress when Stop was called had not returned 2 s after that call (%s; 0 = the Emit made by the sink itself), although nothing drains the data channel any more and Stop has closed done; model: %d producer(s) parked, every one returns through the done branch of its select"
+             (List.length over) (String.concat " " over) mparked
+       | Some cl -> "chk " ^ string_of_lclause cl
+       | None ->
+           (* no timer can fire and nobody drains the channel: every producer must still have been inside Emit *)
+           if mode = "p" && strat = "block" && (bt <= 0 || bt >= 1000) && parked <> mparked
+           then Printf.sprintf "diff parked producers when Stop was called: model=%d impl=%d" mparked parked
+           else if (parked > 0 || mode = "r") && List.exists (function EStopReturn _ -> true | _ -> false) tr then "ok nt" else "ok")
   | "I" :: kind :: strat :: _ :: sinks :: rows :: post :: "#" :: evs ->
       if List.exists stop_panicked evs then "chk panic_escaped Stop" else
       let tr = List.filter_map parse_event evs in
